@@ -308,6 +308,32 @@ inline bool exec(Env& e, const Op& op) {
     if (needM()) e.pushM(e.m(A(0)).Translate(vec3((double)(A(1) % 3), (double)(A(2) % 3), (double)(A(3) % 3))));
   } else if (n == "scale") {
     if (needM()) e.pushM(e.m(A(0)).Scale(vec3(U(A(1), .5, 1.5), U(A(2), .5, 1.5), U(A(3), .5, 1.5))));
+  } else if (n == "hugescale") {
+    // a finite transform whose result overflows: the library empties the result (Impl::Transform -> MakeEmpty)
+    if (needM()) {
+      const int k = (int)((A(1) % 3 + 3) % 3);
+      if (k == 0) {
+        // finite matrix, x' = 1e308 * (x + y + z + 1): overflows for almost every vertex
+        e.pushM(e.m(A(0)).Transform(mat3x4(vec3(1e308, 0, 0), vec3(1e308, 1, 0), vec3(1e308, 0, 1), vec3(1e308, 0, 0))));
+      } else {
+        e.pushM(e.m(A(0)).Scale(k == 1 ? vec3(1e200, 1e200, 1) : vec3(-1.7e308, 1.7e308, 1.7e308)));
+      }
+    }
+  } else if (n == "scratch") {
+    // an expression over pool objects that is built and destroyed without ever being evaluated
+    if (needM()) {
+      const Manifold& a = e.m(A(0));
+      const Manifold& b = e.m(A(1));
+      const vec3 v(U(A(3), -.5, .5), U(A(4), -.5, .5), U(A(5), -.5, .5));
+      const int k = (int)((A(2) % 6 + 6) % 6);
+      {
+        // the transformed operand is a true temporary: only the expression node refers to it afterwards
+        auto xf = [&]() { return k < 3 ? a.Translate(v) : a.Rotate(U(A(3), 0, 90), U(A(4), 0, 90), 0); };
+        Manifold u = (k % 3 == 0) ? (xf() + b) : ((k % 3 == 1) ? (xf() - b) : (xf() ^ b));
+        if (A(5) % 2) u = u.Translate(v) + a;
+      }
+      e.note = "scratch";
+    }
   } else if (n == "mirror") {
     if (needM()) e.pushM(e.m(A(0)).Mirror(vec3(U(A(1), -1, 1), U(A(2), -1, 1), 0.3 + U(A(3), 0, 1))));
   } else if (n == "xf") {
